@@ -79,3 +79,30 @@ func TestSurvey(t *testing.T) {
 		}
 	}
 }
+
+// TestEval (VERIF_C16_PROG=file): evaluates one program text in all three ways and prints the results.
+func TestEval(t *testing.T) {
+	f := os.Getenv("VERIF_C16_PROG")
+	if f == "" {
+		t.Skip()
+	}
+	b, _ := os.ReadFile(f)
+	pr, err := pyEval(string(b))
+	fmt.Printf("cpython: %+v %s %v\n", pr.OK, pr.Kind+" "+pr.Error+string(pr.Globals), err)
+	e, _ := getEnv()
+	vs, _, err := e.EvalBuild("q", string(b))
+	if err != nil {
+		fmt.Printf("build: ERROR %v\n", err)
+	} else {
+		g, _ := vs.Globals()
+		fmt.Printf("build:   %s\n", g)
+	}
+	_, path, _ := e.AddDefs(string(b))
+	ds, err := e.EvalDefs(path)
+	if err != nil {
+		fmt.Printf("defs: ERROR %v\n", err)
+	} else {
+		g, _ := ds.Globals()
+		fmt.Printf("defs:    %s\n", g)
+	}
+}
